@@ -651,6 +651,7 @@ int fstack_entry(struct uftrace_task_reader *task, struct uftrace_record *rstack
 			else if (strstr(fixup->name, "fork") || !strcmp(fixup->name, "daemon") ||
 				 !strcmp(fixup->name, "posix.fork")) {
 				task->fork_display_depth = task->display_depth + 1;
+				task->fork_stack_count = task->stack_count;
 			}
 		}
 
@@ -1925,6 +1926,19 @@ static void fstack_account_time(struct uftrace_task_reader *task)
 			if (parent && parent->fork_display_depth) {
 				task->display_depth = parent->fork_display_depth;
 				task->display_depth_set = true;
+
+				/*
+				 * the parent may have called fork() again (at another
+				 * depth) before this task got to run: keep the distance
+				 * to the fork() the parent has replayed last.
+				 * (stack_count means that only for a user function)
+				 */
+				if (rstack == task->rstack && !is_kernel_func) {
+					task->display_depth += task->stack_count;
+					task->display_depth -= parent->fork_stack_count;
+					if (task->display_depth < 0)
+						task->display_depth = 0;
+				}
 
 				/*
 				 * cannot update user_stack_count due to the
